@@ -42,9 +42,11 @@ def parse(abbr: str, config: Config):
     if text:
         config.user_config['text'] = None
 
-    snippets(abbr, config)
-    walk(abbr, transform, config)
-    config.user_config['text'] = text
+    try:
+        snippets(abbr, config)
+        walk(abbr, transform, config)
+    finally:
+        config.user_config['text'] = text
     return abbr
 
 def stringify(abbr: Abbreviation, config: Config):
